@@ -7,7 +7,7 @@ V="$(cd "$(dirname "$0")/.." && pwd)"
 cd "$V/coq"
 python3 "$V/tools/mkproject.py"
 # -k: a file of a check still under construction must not stop the others; every check re-runs its own targeted make
-timeout 3000 make -j16 -k || echo "setup: some Coq files did not compile (see above); each check reports on its own targets"
+timeout 3000 make -j16 -k COQC="timeout 900 coqc" || echo "setup: some Coq files did not compile (see above); each check reports on its own targets"
 cd "$V/harness"
 [ -f Cargo.lock ] || cp /repo/Cargo.lock .
 mkdir -p "$V/build/harness-target"
